@@ -51,16 +51,20 @@ def sumFst : List (α × α) → α
   | [] => 0
   | (m, _) :: t => m + sumFst t
 
+/-- individual mass of the lightest BHs: the lightest bin's mean mass, or its centre `centre0` while that bin is empty -/
+def lightestMass (centre0 : α) (bins : List (α × α)) : α :=
+  let (m0, n0) := bins.headD (0, 0)
+  if lt 0 n0 then m0 / n0 else centre0
+
 /-- the BH part of one output row of `EvolvedMF._evolve` (evolve_mf.py:846-873).
-    `bins` are listed lightest first, as the arrays are; `kick = some fret` when natal kicks are on.
+    `bins` are listed lightest first, as the arrays are; `centre0` is the centre of the lightest BH bin.
     `kicks` is passed in (it lives in `Model/Kicks`) as a function returning the new bins and the ejecta. -/
-def rowEject (kicks : Option (List (α × α) → List (α × α) × α)) (ret nmin : α) (bins : List (α × α)) :
+def rowEject (kicks : Option (List (α × α) → List (α × α) × α)) (ret nmin centre0 : α) (bins : List (α × α)) :
     Except EjErr (List (α × α) × Bool) :=
   let formed := sumFst bins
   let mEject := formed * (1 - ret)
   let mRet := formed - mEject
-  let (m0, n0) := bins.headD (0, 0)
-  let q := mRet / (m0 / n0)
+  let q := mRet / lightestMass centre0 bins
   if le 0 q && lt q nmin then
     .ok (bins.map fun _ => (0, 0), true)         -- "kicking basically all": zero every bin
   else
